@@ -1,4 +1,6 @@
 import PersimVerif.Lemmas.Image
+import PersimVerif.Lemmas.ImageKernels
+import PersimVerif.Props.C13
 import Mathlib.Tactic.NormNum
 
 /-!
@@ -7,8 +9,15 @@ import Mathlib.Tactic.NormNum
 Statements about `PersimVerif.Image` (the model of `_transform`, `_ensure_iterable` and
 `PersistenceImager.transform`) over an arbitrary (ordered) field `R`.  The kernel is an arbitrary
 elementwise function `F`; where a clause needs a CDF fact (rectangle masses non-negative, mass of the
-whole imaged rectangle at most one) it is an explicit hypothesis — discharged for the uniform and the
-product kernels by C13, assumed for the correlated Gaussian.
+whole imaged rectangle at most one) it is an explicit hypothesis (`hmass` of `nonneg`, the second
+hypothesis of `total_le_weight`).  For the built-in kernels that C13 proves to be CDFs those hypotheses
+are DISCHARGED below — `nonneg_uniform`, `total_le_weight_uniform` (uniform box, via
+`C13.uniform_rect_nonneg` / `C13.uniform_is_product_clamp`) and `nonneg_zero_cov`,
+`total_le_weight_zero_cov` (Gaussian with zero covariance on either code path, for every monotone
+`Φ` into [0,1], via `C13.sbvn_rect_nonneg` / `C13.sbvn_rect_eq`; `Lemmas/ImageKernels.lean` identifies the
+kernels of the two models).  For the CORRELATED Gaussian (`bvn_cdf`, C13's unproved part) and for user
+kernels they remain hypotheses: for those the two clauses are covered by the harness's `nonneg` /
+`total_le_weight` streams only.
 
 `T sk dgm` below abbreviates `_transform(dgm, skew=sk, resolution, weight, weight_params, kernel,
 kernel_params, _bpnts, _ppnts)` for one fixed imager configuration.
@@ -18,7 +27,7 @@ ordered map that `joblib.Parallel` promises (`n_jobs_irrelevant` is that contrac
 runtime); the scheduling quantifier is covered by the harness's bit-for-bit `n_jobs` stream only.
 -/
 namespace PersimVerif.C11
-open PersimVerif.Image
+open PersimVerif.Image PersimVerif.KernelLemmas
 set_option linter.unusedSectionVars false
 
 section field
@@ -277,6 +286,115 @@ theorem total_le_weight (hm : meshOk rx ry bs ps) (sk : Bool) (dgm : List (Pt R)
     exact sum_mul_le_sum _ w _ hw hle
 
 end order
+
+/-! ### the built-in kernels: the CDF hypotheses discharged by C13 -/
+
+section builtin
+variable {R : Type} [Field R] [LinearOrder R] [IsStrictOrderedRing R] [BEq R]
+variable (sqrt Φ : R → R) (w : Pt R → R) (kc : KernelChoice R) (F : Pt R → R → R → R)
+variable (rx ry : Nat) (bs ps : List R)
+
+/-- the kernel `_transform` effectively uses is a zero-covariance Gaussian with positive standard deviations: the
+    isotropic fast path (`sigma` a variance `v`, `sqrt v > 0`), or the general path with the built-in `gaussian`
+    and `sigma = [[vx, 0], [·, vy]]` (`images_kernels.sbvn_cdf`) -/
+def ZeroCovKernel (vx vy : R) : Prop :=
+  (dispatch kc = .fast vx ∧ vy = vx ∨ dispatch kc = .general ∧ F = prodKernel sqrt Φ vx vy) ∧
+    0 < sqrt vx ∧ 0 < sqrt vy
+
+theorem effKernel_of_zeroCov {vx vy : R} (hk : ZeroCovKernel sqrt Φ kc F vx vy) :
+    effKernel sqrt Φ kc F = prodKernel sqrt Φ vx vy := by
+  rcases hk.1 with ⟨h, rfl⟩ | ⟨h, rfl⟩ <;> simp only [effKernel, h]
+
+private theorem unit_diff_mul {a0 a1 c0 c1 : R} (ha0 : 0 ≤ a0) (ha1 : a1 ≤ 1)
+    (hc0 : 0 ≤ c0) (hc : c0 ≤ c1) (hc1 : c1 ≤ 1) : (a1 - a0) * (c1 - c0) ≤ 1 :=
+  mul_le_one₀ (by linarith) (by linarith) (by linarith)
+
+/-- the uniform kernel gives every rectangle `(x0,x1] × (y0,y1]` with `y0 ≤ y1` mass at most one -/
+theorem uniform_rect_le_one {W H : R} (hW : 0 < W) (hH : 0 < H) {x0 x1 y0 y1 : R} (hy : y0 ≤ y1)
+    (mu : Pt R) : rect (uniformKernel W H mu) (x0, x1) (y0, y1) ≤ 1 := by
+  simp only [rect, uniformKernel_eq_uniform, C13.uniform_is_product_clamp hW hH]
+  rw [rect_factor]
+  exact unit_diff_mul (clamp01_nonneg _) (clamp01_le_one _)
+    (clamp01_nonneg _) (clamp01_mono (sub_div_mono hH _ hy)) (clamp01_le_one _)
+
+/-- the zero-covariance Gaussian kernel gives every rectangle mass at most one -/
+theorem prod_rect_le_one {Φ : R → R} (hΦ : C13.IsCdfLike Φ) {sqrt : R → R} {vx vy : R}
+    (hsy : 0 < sqrt vy) {x0 x1 y0 y1 : R} (hy : y0 ≤ y1) (mu : Pt R) :
+    rect (prodKernel sqrt Φ vx vy mu) (x0, x1) (y0, y1) ≤ 1 := by
+  simp only [rect, prodKernel_eq_sbvn]
+  rw [C13.sbvn_rect_eq]
+  exact unit_diff_mul (hΦ.nonneg _) (hΦ.le_one _)
+    (hΦ.nonneg _) (hΦ.mono (sub_div_mono hsy _ hy)) (hΦ.le_one _)
+
+/-- **no negative pixel, uniform kernel** -/
+theorem nonneg_uniform {W H : R} (hW : 0 < W) (hH : 0 < H) (hkc : dispatch kc = .general)
+    (hm : meshOk rx ry bs ps) (hbs : ∀ q ∈ pairs bs, q.1 ≤ q.2) (hps : ∀ r ∈ pairs ps, r.1 ≤ r.2)
+    (sk : Bool) (dgm : List (Pt R)) (hw : ∀ p ∈ toBP sk dgm, 0 ≤ w p) :
+    ∃ img, T sqrt Φ w kc (uniformKernel W H) rx ry bs ps sk dgm = .ok img ∧ ∀ row ∈ img, ∀ x ∈ row, 0 ≤ x := by
+  refine nonneg sqrt Φ w kc (uniformKernel W H) rx ry bs ps hm sk dgm hw ?_
+  intro p _ q hq r hr
+  simp only [effKernel, hkc, rect, uniformKernel_eq_uniform]
+  exact C13.uniform_rect_nonneg hW hH (hbs q hq) (hps r hr) p.1 p.2
+
+/-- **no negative pixel, Gaussian kernel with zero covariance** -/
+theorem nonneg_zero_cov (hΦ : C13.IsCdfLike Φ) {vx vy : R} (hk : ZeroCovKernel sqrt Φ kc F vx vy)
+    (hm : meshOk rx ry bs ps) (hbs : ∀ q ∈ pairs bs, q.1 ≤ q.2) (hps : ∀ r ∈ pairs ps, r.1 ≤ r.2)
+    (sk : Bool) (dgm : List (Pt R)) (hw : ∀ p ∈ toBP sk dgm, 0 ≤ w p) :
+    ∃ img, T sqrt Φ w kc F rx ry bs ps sk dgm = .ok img ∧ ∀ row ∈ img, ∀ x ∈ row, 0 ≤ x := by
+  refine nonneg sqrt Φ w kc F rx ry bs ps hm sk dgm hw ?_
+  intro p _ q hq r hr
+  rw [effKernel_of_zeroCov sqrt Φ kc F hk]
+  simp only [rect, prodKernel_eq_sbvn]
+  exact C13.sbvn_rect_nonneg hΦ hk.2.1 hk.2.2 (hbs q hq) (hps r hr) p.1 p.2
+
+/-- **the pixel total is at most the total weight, uniform kernel** -/
+theorem total_le_weight_uniform {W H : R} (hW : 0 < W) (hH : 0 < H) (hkc : dispatch kc = .general)
+    (hm : meshOk rx ry bs ps) (sk : Bool) (dgm : List (Pt R)) (hw : ∀ p ∈ toBP sk dgm, 0 ≤ w p)
+    (b0 b1 p0 p1 : R) (hb0 : bs.head? = some b0) (hb1 : bs.getLast? = some b1)
+    (hp0 : ps.head? = some p0) (hp1 : ps.getLast? = some p1) (hp : p0 ≤ p1) :
+    ∃ img, T sqrt Φ w kc (uniformKernel W H) rx ry bs ps sk dgm = .ok img ∧
+      matTotal img ≤ ((toBP sk dgm).map w).sum := by
+  obtain ⟨img, h1, _, h3⟩ := total_le_weight sqrt Φ w kc (uniformKernel W H) rx ry bs ps hm sk dgm b0 b1 p0 p1
+    hb0 hb1 hp0 hp1
+  refine ⟨img, h1, h3 hw ?_⟩
+  intro p _
+  simp only [effKernel, hkc]
+  exact uniform_rect_le_one hW hH hp p
+
+/-- **the pixel total is at most the total weight, Gaussian kernel with zero covariance** -/
+theorem total_le_weight_zero_cov (hΦ : C13.IsCdfLike Φ) {vx vy : R} (hk : ZeroCovKernel sqrt Φ kc F vx vy)
+    (hm : meshOk rx ry bs ps) (sk : Bool) (dgm : List (Pt R)) (hw : ∀ p ∈ toBP sk dgm, 0 ≤ w p)
+    (b0 b1 p0 p1 : R) (hb0 : bs.head? = some b0) (hb1 : bs.getLast? = some b1)
+    (hp0 : ps.head? = some p0) (hp1 : ps.getLast? = some p1) (hp : p0 ≤ p1) :
+    ∃ img, T sqrt Φ w kc F rx ry bs ps sk dgm = .ok img ∧ matTotal img ≤ ((toBP sk dgm).map w).sum := by
+  obtain ⟨img, h1, _, h3⟩ := total_le_weight sqrt Φ w kc F rx ry bs ps hm sk dgm b0 b1 p0 p1 hb0 hb1 hp0 hp1
+  refine ⟨img, h1, h3 hw ?_⟩
+  intro p _
+  rw [effKernel_of_zeroCov sqrt Φ kc F hk]
+  exact prod_rect_le_one hΦ hk.2.2 hp p
+
+end builtin
+
+/-! non-vacuity of the hypotheses of the four theorems above: an increasing 2 × 1 mesh at ℚ; the isotropic fast path
+    with variance 4 (`sqrt 4 = 2`) and the general path with the built-in zero-covariance Gaussian (variances 4 and 9),
+    `Φ` the clamp (a monotone [0,1]-valued function); the uniform box 3 × 1/2 on the general path -/
+section builtin_examples
+open PersimVerif.KernelLemmas
+
+private abbrev sqrtE : ℚ → ℚ := fun v => if v = 4 then 2 else 3
+
+example : ∀ q ∈ pairs ([0, 1, 2] : List ℚ), q.1 ≤ q.2 := by simp [pairs]
+example : ([0, 1] : List ℚ).head? = some 0 ∧ ([0, 1] : List ℚ).getLast? = some 1 ∧ (0 : ℚ) ≤ 1 :=
+  ⟨rfl, rfl, by norm_num⟩
+example : C13.IsCdfLike (clamp01 : ℚ → ℚ) := ⟨clamp01_mono, clamp01_nonneg, clamp01_le_one⟩
+example : ZeroCovKernel sqrtE clamp01 (.gaussian (.scalar (4 : ℚ))) (fun _ _ _ => 0) 4 4 :=
+  ⟨Or.inl ⟨by simp [dispatch, Sigma.toMatrix], rfl⟩, by norm_num [sqrtE], by norm_num [sqrtE]⟩
+example : ZeroCovKernel sqrtE clamp01 (.gaussian (.matrix (4 : ℚ) 0 0 9)) (prodKernel sqrtE clamp01 4 9) 4 9 :=
+  ⟨Or.inr ⟨by simp [dispatch, Sigma.toMatrix], rfl⟩, by norm_num [sqrtE], by norm_num [sqrtE]⟩
+example : (0 : ℚ) < 3 ∧ (0 : ℚ) < 1 / 2 ∧ dispatch (KernelChoice.other : KernelChoice ℚ) = .general :=
+  ⟨by norm_num, by norm_num, rfl⟩
+
+end builtin_examples
 
 /-! ### non-vacuity: a concrete imager (2 × 1 pixels, uniform box kernel of width = height = 1, weight = persistence)
     meets every hypothesis used above -/
